@@ -500,12 +500,17 @@ macro_rules! impl_io_uring {
                 $($arg: $arg_type),*
             ) -> std::io::Result<Arc<(Mutex<Option<c_longlong>>, Condvar)>> {
                 let token = EventLoop::token(SyscallName::$syscall);
-                self.operator.$syscall(token, $($arg, )*)?;
+                // the slot must exist before the kernel can complete the request: the loop
+                // thread drops a completion whose token it does not find
                 let arc = Arc::new((Mutex::new(None), Condvar::new()));
                 assert!(
                     self.syscall_wait_table.insert(token, arc.clone()).is_none(),
                     "The previous token was not retrieved in a timely manner"
                 );
+                if let Err(e) = self.operator.$syscall(token, $($arg, )*) {
+                    _ = self.syscall_wait_table.remove(&token);
+                    return Err(e);
+                }
                 Ok(arc)
             }
         }
